@@ -2,7 +2,7 @@
    Statements only; every proof is [exact <lemma>] from EngineProofs / EngineC14 (the refutation computes).
 
    Model: Engine.v -- the REST engine's handlers transcribed with the order of their side effects (snapshot, pool,
-   attributes), from the sources with the fix series proposed_fixes/SERIES-C14C15.txt applied.
+   attributes), from the sources as committed in /repo (fix series proposed_fixes/SERIES-C14C15.txt + CSV cell-text fix b0400cb).
    "reachable s": s is the state after some sequence of requests whose library calls return (wf_request). *)
 From Coq Require Import List String ZArith QArith Bool.
 From Crem Require Import Base.Res Engine EngineProofs EngineC14.
